@@ -291,11 +291,18 @@ def tlc_cases(gen: list[dict], tier: str, rng: random.Random) -> list[dict]:
                 if g["nshapes"] == 0:
                     cases.append(dict(base, emb=en, path=path, plan=["single", 0]))
                     continue
-                cases.append(dict(base, emb=en, path=path, plan=["loop", g["best"] - 1]))
+                # TLC computed the optimum for cell weights floor(fnum/fden * p * area / den); under this embedding
+                # the weights are floor(factor * step^2 * p * area / den): the same up to the scale (exactly for
+                # the exact embeddings -- den = 2 and fnum/fden = 100 make every weight an integer before floor --
+                # and up to the truncation of each cell weight otherwise, hence the slack)
+                scale = F(FACTOR[en]) * EMBEDDINGS[en].step ** 2 / F(g["fnum"], g["fden"])
+                best = int(g["best"] * scale) if g["best"] >= 0 else -int(-g["best"] * scale)
+                slack = 0 if en in EXACT else 3 * len(g["cells"]) + 1
+                cases.append(dict(base, emb=en, path=path, plan=["loop", best - 1 - slack]))
                 if si % 5 == 0:       # a bound well below the optimum: a large model set cut by the cost constraint
-                    cases.append(dict(base, emb=en, path=path, plan=["single", g["best"] // 2]))
-                if si % 7 == 0:       # exactly at the optimum
-                    cases.append(dict(base, emb=en, path=path, plan=["single", g["best"]]))
+                    cases.append(dict(base, emb=en, path=path, plan=["single", best // 2]))
+                if si % 7 == 0:       # at the optimum
+                    cases.append(dict(base, emb=en, path=path, plan=["single", best]))
     return cases
 
 
@@ -372,6 +379,11 @@ def decide(ctx: Ctx, cases: list[dict]):
         s = dict(t)
         s["events"] = [dict(e, models=e["models"][:3] + (["..."] if len(e["models"]) > 3 else [])) for e in t["events"]]
         ctx.sample({"trace": s, "embeddings": sorted({c["emb"] for c in owners[t["id"]]})})
+    loops = [(k, t) for k, t in traces.items() if any(c["plan"][0] == "loop" for c in owners[k])]
+    ctx.extra["loops"] = len(loops)
+    ctx.extra["loops_ending_unsat_after_sat"] = sum(1 for k, t in loops if len(t["events"]) > 1 and t["events"][-1]["sat"] == 0)
+    ctx.extra["calls_sat"] = sum(e["sat"] for t in traces.values() for e in t["events"])
+    ctx.extra["calls_unsat"] = sum(1 - e["sat"] for t in traces.values() for e in t["events"])
     ctx.extra["traces_distinct"] = len(traces)
     ctx.extra["solve_calls"] = sum(len(t["events"]) * len(owners[k]) for k, t in traces.items())
     ctx.extra["models_enumerated"] = sum(len(e["models"]) * len(owners[k]) for k, t in traces.items() for e in t["events"])
